@@ -7,5 +7,9 @@ goroot = subprocess.check_output(['go', 'env', 'GOROOT'], cwd=sys.argv[1]).decod
 src = open(os.path.join(goroot, 'src/go/build/read.go')).read()
 m = re.search(r'\nfunc parseGoEmbed\(.*?\n}\n', src, re.S)
 fn = m.group(0).replace('func parseGoEmbed(', 'func ref_parseGoEmbed(').replace('fileEmbed', 'ref_fileEmbed')
+esrc = open(os.path.join(goroot, 'src/embed/embed.go')).read()
+m2 = re.search(r'\nfunc split\(.*?\n}\n', esrc, re.S)
+# the embed package's own split (its internal helpers replaced by their exported equivalents)
+sp = m2.group(0).replace('func split(', 'func ref_embedSplit(').replace('stringslite.CutSuffix', 'strings.CutSuffix').replace('bytealg.LastIndexByteString', 'strings.LastIndexByte')
 tmpl = open(os.path.join(os.path.dirname(os.path.abspath(__file__)), 'embed_h.go.tmpl')).read()
-open(sys.argv[2], 'w').write(tmpl.replace('//REF_PARSEGOEMBED//', fn))
+open(sys.argv[2], 'w').write(tmpl.replace('//REF_PARSEGOEMBED//', fn).replace('//REF_EMBEDSPLIT//', sp))
